@@ -57,7 +57,8 @@ def corrupt(c, rng):
         arrays = arrays + [np.zeros((2,), dtype=np.int64)]
         must_fail = True
     elif kind == "garbage":
-        desc = desc + rng.choice([" (", " )", " [", " ]", " ~", " a..", " -> -> "])
+        g = rng.choice([" (", " )", " [", " ]", " ~", " a..", " -> -> ", "\n", " q\n", " 3\n", "\t", " q\u00b2"])
+        desc = desc + g if rng.random() < 0.7 else desc.replace(" ", g + " ", 1)
         must_fail = True
     elif kind in ("axis_renamed", "axis_dropped", "axis_duplicated"):
         names = re.findall(r"(?<![A-Za-z0-9_\[.])[A-Za-z_][A-Za-z0-9_]*", desc)
